@@ -1,19 +1,25 @@
 import RactorModel.Model.ExitRace
+import RactorModel.Model.WaitForms
 import Driver.Common
 
 /-! Driver for the `ExitRace` model (C06).
 
 ops (written by `harness/hcore/src/bin/exitrace.rs`):
-  `case <cause> <n> <d>`  → `ok <fields> at=<exiter point>`        cause = stop|kill|drain|panic|stoppanic
+  `case <cause> <n> <d> [forms=k,…]` → `ok <fields> at=<exiter point>`   cause = stop|kill|drain|panic|stoppanic;
+                            k = wait|waitT|stop|stopT|kill|killT|drain|drainT|join (the call waiter i makes)
   `step d<i> drain.status`→ `<fields> at=done`
   `succ`                  → `<fields> at=ok|refused`
   `step e <point>`        → `<fields> at=<next|done>`
-  `step w<i> <point>`     → `<fields> at=<next|done>[ ret]`
+  `step w<i> <point>`     → `<fields> at=<next|done>[ ret| ret=<ok|err|timeout>]`
+  `timeout <i>`           → `<fields> at=done ret=<ok|timeout>`
   `abandon <i>`           → `<fields> at=done`
   `end <cause> <n> <sig>` → `<fields> waiters=<r|a|p,…>`
-fields = `st= name= succ= pid= pg= mon= kids= link= sup= post=`
+fields = `st= name= succ= pid= pg= mon= kids= link= sup= post= sp= kp=`
 
-One `step` line = one `ExitRace.step`. The oracle clauses judge the implementation's observations
+One `step` line = one `ExitRace.step`; a waiter's line = the steps of `WaitForms.callStep` its poll
+covers (send step + creation of `Notified` in the first poll; `drain_and_wait`: `drain.close` alone,
+then `drain.status` + marker + creation of `Notified`). A `ret`/`ret=ok` is judged by `formOk` on the
+implementation's snapshot (`premature-return`). The oracle clauses judge the implementation's observations
 only: `premature-return`, `lost-wakeup`, `status-backwards`, `cleanup-twice`, `timeout-effect`,
 `not-stopped-at-end`, `successor-lost-name`.
 -/
@@ -23,9 +29,10 @@ open _root_.ExitRace Driver
 
 def b01 (b : Bool) : String := if b then "1" else "0"
 
-def showFields (g : G) (unsup : Bool := false) : String :=
+def showFields (g : G) (ports : Ports) (unsup : Bool := false) : String :=
   let f := g.sh.flags
-  s!"st={g.sh.status} name={b01 (g.sh.name == .self)} succ={b01 (g.sh.name == .succ)} pid={b01 !f.unregPid} pg={b01 !f.pgLeft} mon={b01 !f.pgDemon} kids={if f.terminated then 0 else 1} link={b01 !f.unlinked} sup={if unsup then 0 else if f.supNotified then 2 else 1} post={b01 f.postStop}"
+  let kid : Kid := { g := g, ports := ports }
+  s!"st={g.sh.status} name={b01 (g.sh.name == .self)} succ={b01 (g.sh.name == .succ)} pid={b01 !f.unregPid} pg={b01 !f.pgLeft} mon={b01 !f.pgDemon} kids={if f.terminated || (g.sh.killPending && g.exiter.pc.loopGone) then 0 else 1} link={b01 !f.unlinked} sup={if unsup then 0 else 1 + g.sh.supEvents} post={b01 f.postStop} sp={b01 kid.stopOpen} kp={b01 kid.signalOpen}"
 
 def exiterAt (g : G) : String := g.exiter.pc.point
 
@@ -41,14 +48,85 @@ structure Case where
   unregRuns : Nat := 0
   notifyRuns : Nat := 0
   succSeen : Bool := false  -- the successor has held the name
+  /-- from the implementation's own lines: the exiter has been seen at `post_stop`; the signal port was
+  open on the previous line; a `kill_and_wait` was accepted before `post_stop` was reached (the exit is
+  then a killed one: no `post_stop` to wait for) -/
+  sawPost : Bool := false
+  lastKp : Bool := false
+  killedEarly : Bool := false
   raced : Bool := false     -- a waiter acted before the exiter had finished
   deriving Inhabited
 
+/-- children-wrapper cases (`wcase`): the `WaitForms` state plus what the quiescent-point engine adds:
+which child sits in a handler, which has an accepted stop/drain request it has not acted upon yet -/
+structure WSt where
+  kind : String := "stop"
+  timed : Bool := false
+  x : X := {}
+  busy : List Bool := []
+  pending : List Bool := []
+  killed : List Bool := []
+  exited : List Bool := []
+  wrapped : Bool := false
+  advanced : Bool := false
+  reported : Bool := false
+  acc : String := "-"
+  deriving Inhabited
+
 structure St where
+  w : WSt := {}
   g : G := {}
+  ports : Ports := {}
+  /-- caller `i` = waiter thread `i` (its `Notified` slot is waiter `i` of `g`) -/
+  callers : List Caller := []
+  /-- `drain_and_wait` caller `i` has passed `drain.close` and is parked at `drain.status` -/
+  closed : List Bool := []
   c : Case := {}
   diverged : Bool := false
   deriving Inhabited
+
+def parseForm (s : String) : Form × Bool :=
+  match s with
+  | "waitT" => (.wait, true) | "stop" => (.stopWait, false) | "stopT" => (.stopWait, true)
+  | "kill" => (.killWait, false) | "killT" => (.killWait, true) | "drain" => (.drainWait, false)
+  | "drainT" => (.drainWait, true) | "join" => (.join, false) | _ => (.wait, false)
+
+def waiterAbandoned (g : G) (i : Nat) : Bool :=
+  match g.waiters[i]? with
+  | some ⟨.abandoned, _⟩ => true
+  | _ => false
+
+/-- the point the thread of caller `i` is parked at -/
+def callerAt (st : St) (i : Nat) : String :=
+  match st.callers[i]? with
+  | none => "done"
+  | some c =>
+    if waiterAbandoned st.g i then "done" else
+    match c.pc with
+    | .done _ => "done"
+    | .send => if c.form == .drainWait && st.closed.getD i false then "drain.status" else "wait.poll"
+    | .waiting => if c.form == .join then "wait.poll" else waiterAt st.g i
+
+def resName : Res → String
+  | .ok _ => "ok" | .sendErr => "err" | .timeout => "timeout"
+
+/-- `unwound`: a statement of `cleanup` panicked, so the actor's task ended by a panic and its join
+handle completes with `Err(JoinError)` -/
+def retSuffix (c : Caller) (unwound : Bool := false) : String :=
+  match c.pc with
+  | .done r =>
+    if c.form == .wait && !c.timed then " ret"
+    else if c.form == .join && unwound then " ret=err"
+    else s!" ret={resName r}"
+  | _ => ""
+
+/-- the actor's task ended by a panic (its join handle completes with `Err(JoinError)`): a statement of
+`cleanup` panicked, or — cause `stoppanic` after an early kill — the exploding state was dropped at the
+end of the task instead of inside the terminal event -/
+def taskPanicked (st : St) : Bool :=
+  st.g.exiter.unwound || (st.c.cause == "stoppanic" && st.g.sh.killPending) || st.c.cause == "abort"
+
+def sf (st : St) : String := showFields st.g st.ports (st.c.cause == "stoppanic")
 
 def kv (ws : List String) (k : String) : Option String :=
   ws.findSome? (fun w => if w.startsWith (k ++ "=") then some (w.drop (k.length + 1)).toString else none)
@@ -56,17 +134,21 @@ def kv (ws : List String) (k : String) : Option String :=
 def fieldsOf (ws : List String) : List String :=
   ws.filter (fun w => ["st=", "name=", "succ=", "pid=", "pg=", "mon=", "kids=", "link=", "sup=", "post="].any (w.startsWith ·))
 
+/-- `Ok` was reported on this line (`ret` of a plain `wait(None)`, `ret=ok` of the other forms) -/
+def saysOk (iw : List String) : Bool := iw.contains "ret" || iw.contains "ret=ok"
+
 /-- a waiter returned on this line: the snapshot it sees must be that of a fully stopped actor —
 `ExitRace.snapshotOk` (the predicate of `C06.waiter_returns_only_after_full_stop`) on the
 implementation's observation -/
-def returnOk (cause : String) (ws : List String) : Bool :=
+def returnOk (cause : String) (ws : List String) (killedEarly : Bool := false) : Bool :=
   let is0 (k : String) : Bool := kv ws k == some "0"
   let flags : Flags :=
     { unregPid := is0 "pid", unregName := is0 "name", pgDemon := is0 "mon", pgLeft := is0 "pg",
       postStop := kv ws "post" == some "1", terminated := is0 "kids",
       -- an unsupervised actor (cause `stoppanic`) has nobody to notify
       supNotified := cause == "stoppanic" || ((kv ws "sup").bind (·.toNat?)).getD 0 ≥ 2, unlinked := is0 "link" }
-  snapshotOk (((kv ws "st").bind (·.toNat?)).getD 0) flags (cause == "stop" || cause == "drain" || cause == "stoppanic")
+  snapshotOk (((kv ws "st").bind (·.toNat?)).getD 0) flags
+    ((cause == "stop" || cause == "drain" || cause == "stoppanic") && !killedEarly)
 
 def track (c : Case) (iw : List String) : Case × List String :=
   let st := ((kv iw "st").bind (·.toNat?)).getD 0
@@ -74,15 +156,151 @@ def track (c : Case) (iw : List String) : Case × List String :=
   let orc := (if st < c.lastSt then ["status-backwards"] else []) ++
     (if c.succSeen && !succ then ["successor-lost-name"] else [])
   -- (reported once per loss)
-  ({ c with lastFields := fieldsOf iw, lastSt := st, succSeen := succ }, orc)
+  ({ c with lastFields := fieldsOf iw, lastSt := st, succSeen := succ, lastKp := kv iw "kp" == some "1",
+            sawPost := c.sawPost || iw.contains "at=post_stop" }, orc)
+
+/-! ### children wrappers -/
+
+def xsteps (x : X) (l : List XTid) : X := xrun x l
+
+/-- the whole exit sequence of child `j` (at a quiescent point it has either not begun or finished) -/
+def runExit (x : X) (j : Nat) : X := xsteps x (List.replicate 19 (.kid j .e))
+
+/-- run to quiescence: every child that is not in a handler and has an accepted request exits; the
+`JoinSet` tasks are polled; the wrapper looks at its set -/
+def settle (w : WSt) : WSt :=
+  let n := w.x.kids.length
+  let (x, exited) := (List.range n).foldl (fun (acc : X × List Bool) j =>
+      if !(w.busy.getD j false) && w.pending.getD j false && !(acc.2.getD j false) then
+        (runExit acc.1 j, acc.2.set j true) else acc) (w.x, w.exited)
+  let polls := (List.range x.callers.length).flatMap (fun i => [XTid.call i, .call i, .call i, .call i])
+  let x := xsteps x (polls ++ (if w.wrapped then [.wrap 0] else []))
+  { w with x := x, exited := exited }
+
+def wDone (w : WSt) : Bool := w.x.wrappers.any (·.returned)
+
+def wSnap (w : WSt) : String :=
+  let l := w.x.callers.map (fun c =>
+    match w.x.kids[c.kid]? with
+    | some k =>
+      let f := k.g.sh.flags
+      s!"{c.kid}:{k.g.sh.status}:{b01 (k.g.sh.name == .self)}:{b01 !f.unregPid}:{b01 !f.pgLeft}:{b01 !f.unlinked}:{b01 f.postStop}:{b01 f.supNotified}"
+    | none => "?")
+  if l.isEmpty then "-" else ",".intercalate l
+
+def wShow (w : WSt) (withSnap : Bool := true) : WSt × String :=
+  let sts := ",".intercalate (w.x.kids.map (fun k => toString k.g.sh.status))
+  let ws := if wDone w then "done" else if w.wrapped then "pending" else "-"
+  let snap := if withSnap && wDone w && !w.reported then s!" snap={wSnap w}" else ""
+  ({ w with reported := w.reported || (withSnap && wDone w) }, s!"w={ws} kids={sts} acc={w.acc}{snap}")
+
+/-- The wrapper oracle on the implementation's own snapshot, taken by the wrapper task the moment the
+wrapper returned: `wrapperChildOk` for every child of the `get_children()` snapshot. -/
+def wSnapOracle (w : WSt) (iw : List String) : List String :=
+  match kv iw "snap" with
+  | none => []
+  | some "-" => []
+  | some s =>
+    let accs := ((kv iw "acc").getD "").splitOn ","
+    let bad := (s.splitOn ",").any (fun e =>
+      match e.splitOn ":" with
+      | [j, st, name, pid, pg, link, post, ev] =>
+        let j := j.toNat?.getD 0
+        let flags : Flags :=
+          { unregPid := pid == "0", unregName := name == "0", pgDemon := true, pgLeft := pg == "0",
+            postStop := post == "1", terminated := true, supNotified := ev == "1", unlinked := link == "0" }
+        let full := snapshotOk (st.toNat?.getD 0) flags (!(w.killed.getD j false))
+        !wrapperChildOk (accs.getD j "0" == "1") (w.timed && w.advanced) full
+      | _ => true)
+    if bad then ["wrapper-returned-before-accepted-child-stopped"] else []
+
+def wstep (st : St) (op impl : String) : St × StepOut :=
+  let iw := words impl
+  let w := st.w
+  match words op with
+  | ["wcase", kind, t, states] =>
+    let sts := states.splitOn ","
+    let n := sts.length
+    let g0 : G := init true [] [] 1 2
+    let x0 : X := { kids := List.replicate n { g := g0 }, wrappers := [{}] }
+    let x := sts.zipIdx.foldl (fun (x : X) (sj : String × Nat) =>
+      match sj.1 with
+      | "stopreq" | "dead" => xstep x (.stop sj.2)
+      | "drainreq" => xsteps x [.kid sj.2 (.d 0), .mark sj.2]
+      | _ => x) x0
+    let w0 : WSt :=
+      { kind := kind, timed := t == "t=1", x := x,
+        busy := sts.map (fun s => s == "busy" || s == "stopreq" || s == "drainreq"),
+        pending := sts.map (fun s => s == "stopreq" || s == "drainreq" || s == "dead"),
+        killed := List.replicate n false, exited := List.replicate n false }
+    let w1 := settle w0
+    let (w2, _) := wShow w1 false
+    let sts' := ",".intercalate (w2.x.kids.map (fun k => toString k.g.sh.status))
+    ({ st with w := w2, diverged := false }, { model := s!"ok kids={sts'}" })
+  | ["wrap"] =>
+    if w.wrapped then (st, { model := "bad-op" }) else
+    let n := w.x.kids.length
+    let live := (List.range n).filter (fun j => !(w.exited.getD j false))
+    let form : Form := if w.kind == "stop" then .stopWait else .drainWait
+    let callers : List Caller := live.map (fun j => { kid := j, form := form, timed := w.timed, w := 0, d := 1 })
+    let x : X := { w.x with callers := callers, wrappers := [{ callers := List.range callers.length }] }
+    let x := xsteps x ((List.range callers.length).map XTid.call)
+    let accOf (j : Nat) : Bool := x.callers.any (fun c => c.kid == j && c.accepted)
+    let pending := (List.range n).map (fun j => w.pending.getD j false || accOf j)
+    let acc := ",".intercalate ((List.range n).map (fun j => b01 (accOf j)))
+    let w1 := settle { w with x := x, pending := pending, wrapped := true, acc := acc }
+    let (w2, model) := wShow w1
+    ({ st with w := w2 }, { model := model, oracle := wSnapOracle w iw, nontrivial := w.busy.any id })
+  | ["release", j] =>
+    let j := j.toNat?.getD 0
+    let w1 := settle { w with busy := w.busy.set j false }
+    let (w2, model) := wShow w1
+    ({ st with w := w2 }, { model := model, oracle := wSnapOracle w iw, nontrivial := (kv iw "snap").isSome })
+  | ["kill", j] =>
+    let j := j.toNat?.getD 0
+    let w1 :=
+      if w.exited.getD j false then w else
+      match w.x.kids[j]? with
+      | none => w
+      | some k =>
+        -- a killed actor skips `post_stop`
+        let k' : Kid := { k with g := { k.g with exiter := { k.g.exiter with hasPostStop := false } } }
+        let x := runExit (xstep { w.x with kids := w.x.kids.set j k' } (.kill j)) j
+        { w with x := x, killed := w.killed.set j true, exited := w.exited.set j true }
+    let w1 := settle w1
+    let (w2, model) := wShow w1
+    let wk := { w with killed := w.killed.set j true }
+    ({ st with w := w2 }, { model := model, oracle := wSnapOracle wk iw, nontrivial := (kv iw "snap").isSome })
+  | ["advance"] =>
+    let x := if w.timed then xsteps w.x ((List.range w.x.callers.length).map XTid.timeout) else w.x
+    let w1 := settle { w with x := x, advanced := w.advanced || w.wrapped }
+    let (w2, model) := wShow w1
+    ({ st with w := w2 }, { model := model, oracle := wSnapOracle { w with advanced := w.advanced || w.wrapped } iw,
+                             nontrivial := (kv iw "snap").isSome })
+  | ["wend"] =>
+    let (w2, model) := wShow w false
+    -- every child has been let go: a wrapper still pending now hangs
+    let orc := if kv iw "w" == some "pending" then ["wrapper-hung"] else []
+    ({ st with w := w2 }, { model := model, oracle := orc })
+  | _ => (st, { model := "bad-op" })
 
 def step1 (st : St) (op impl : String) : St × StepOut :=
   let iw := words impl
   match words op with
   | "case" :: cause :: n :: rest =>
     let post := cause == "stop" || cause == "drain" || cause == "stoppanic"
-    let nd := match rest with | [d] => d.toNat?.getD 0 | _ => 0
-    let g0 := init post [] [] (n.toNat?.getD 0) nd
+    let nd := match rest with | d :: _ => d.toNat?.getD 0 | _ => 0
+    let nw := n.toNat?.getD 0
+    let forms : List (Form × Bool) :=
+      match rest.find? (·.startsWith "forms=") with
+      | some f => ((f.drop 6).toString.splitOn ",").map parseForm
+      | none => List.replicate nw (.wait, false)
+    -- drainer slots: the `nd` late drainers, then one per `drain_and_wait` caller
+    let (callers, ndw) := forms.zipIdx.foldl (fun (acc : List Caller × Nat) (fi : (Form × Bool) × Nat) =>
+        let ((f, t), i) := fi
+        (acc.1 ++ [{ kid := 0, form := f, timed := t, w := i, d := nd + acc.2 }],
+         acc.2 + (if f == .drainWait then 1 else 0))) ([], 0)
+    let g0 := init post [] [] nw (nd + ndw)
     -- a kill signal makes the actor terminate its children before the exit sequence starts
     let g := if cause == "kill" then { g0 with sh := { g0.sh with flags := { g0.sh.flags with terminated := true } } }
       -- `drain()` has already published `Draining`
@@ -90,15 +308,27 @@ def step1 (st : St) (op impl : String) : St × StepOut :=
       -- unsupervised: never linked, nobody to notify (shown as `link=0 sup=0`)
       else if cause == "stoppanic" then { g0 with sh := { g0.sh with flags := { g0.sh.flags with unlinked := true } } }
       else g0
+    -- what the trigger did to the ports: `stop()` / `kill()` took the one-shot sender, `drain()` enqueued the
+    -- marker, a handler panic dropped the processing loop's future (and the port set with it)
+    let ports : Ports :=
+      { stop := !(cause == "stop" || cause == "stoppanic"), signal := cause != "kill", marker := cause == "drain",
+        rx0 := cause != "panic" && cause != "abort" }
     let (c, _) := track { cause := cause } iw
-    ({ g := g, c := c, diverged := false }, { model := s!"ok {showFields g (cause == "stoppanic")} at={exiterAt g}" })
+    ({ g := g, ports := ports, callers := callers, closed := List.replicate nw false, c := c, diverged := false },
+     { model := s!"ok {showFields g ports (cause == "stoppanic")} at={exiterAt g}" })
   | ["step", "e", point] =>
     let pre := exiterAt st.g
     -- cause `stoppanic`: the state's destructor panics inside `notify_supervisor`, i.e. the
     -- statement at `cleanup.notify` panics (once) and the guard's `Drop` re-runs `cleanup`
-    let panics := st.c.cause == "stoppanic" && point == "cleanup.notify" && !st.g.exiter.unwound
-    let g' := _root_.ExitRace.step st.g (if panics then .unwind else .e)
-    let model := (if pre == point then "" else s!"model-at={pre} ") ++ s!"{showFields g' (st.c.cause == "stoppanic")} at={exiterAt g'}"
+    -- (only a clean shutdown hands the state to the terminal event; after an early kill it is dropped when
+    -- the task ends, after `cleanup`)
+    let panics := st.c.cause == "stoppanic" && point == "cleanup.notify" && !st.g.exiter.unwound && !st.g.sh.killPending
+    let g1 := _root_.ExitRace.step st.g (if panics then .unwind else .e)
+    -- task cancellation: only the guard's `cleanup` runs, i.e. ONE `set_status(Stopping)` (the model's `set1`,
+    -- elected); the model's second call (`set2`, never elected: a stutter) has no counterpart
+    let g' := if st.c.cause == "abort" && g1.exiter.pc == .set2 (.publish stStopping) && !(st.g.exiter.pc == g1.exiter.pc)
+      then _root_.ExitRace.step g1 .e else g1
+    let model := (if pre == point then "" else s!"model-at={pre} ") ++ s!"{sf { st with g := g' }} at={exiterAt g'}"
     let (c, orc) := track st.c iw
     let c := { c with unregRuns := c.unregRuns + (if point == "status.unreg_pid" then 1 else 0),
                       notifyRuns := c.notifyRuns + (if point == "notify.waiters" then 1 else 0) }
@@ -106,47 +336,80 @@ def step1 (st : St) (op impl : String) : St × StepOut :=
   | ["succ"] =>
     let g' := _root_.ExitRace.step st.g .succ
     let ok := st.g.sh.name == .none
-    let model := s!"{showFields g' (st.c.cause == "stoppanic")} at={if ok then "ok" else "refused"}"
+    let model := s!"{sf { st with g := g' }} at={if ok then "ok" else "refused"}"
     let (c, orc) := track st.c iw
     ({ st with g := g', c := { c with raced := true } }, { model := model, oracle := orc })
-  | ["step", w, "drain.status"] =>
-    match (w.drop 1).toString.toNat? with
-    | none => (st, { model := "bad-op" })
-    | some i =>
-      let g' := _root_.ExitRace.step st.g (.d i)
-      let model := s!"{showFields g' (st.c.cause == "stoppanic")} at=done"
-      let (c, orc) := track st.c iw
-      ({ st with g := g', c := { c with raced := true } }, { model := model, oracle := orc })
   | ["step", w, point] =>
     match (w.drop 1).toString.toNat? with
     | none => (st, { model := "bad-op" })
     | some i =>
-      let pre := waiterAt st.g i
-      let g' := _root_.ExitRace.step st.g (.w i)
-      let returned := match g'.waiters[i]? with
-        | some ⟨.returned _, _⟩ => true
-        | _ => false
-      let model := (if pre == point then "" else s!"model-at={pre} ") ++
-        s!"{showFields g' (st.c.cause == "stoppanic")} at={waiterAt g' i}{if returned then " ret" else ""}"
-      let (c, orc) := track st.c iw
-      let orc := orc ++ (if iw.contains "ret" && !returnOk c.cause iw then ["premature-return"] else [])
-      let c := { c with raced := c.raced || !st.g.exiter.finished }
-      ({ st with g := g', c := c }, { model := model, oracle := orc })
+      if w.startsWith "d" then
+        -- a late `drain()` thread: only its status `fetch_update` is a model step
+        let g' := _root_.ExitRace.step st.g (.d i)
+        -- … and then reaches `send_drain_marker` (`XTid.mark`)
+        let st' := { st with g := g', ports := { st.ports with marker := true } }
+        let model := s!"{sf st'} at=done"
+        let (c, orc) := track st.c iw
+        ({ st' with c := { c with raced := true } }, { model := model, oracle := orc })
+      else
+      match st.callers[i]? with
+      | none => (st, { model := "bad-op" })
+      | some cl =>
+        let pre := callerAt st i
+        let kid : Kid := { g := st.g, ports := st.ports }
+        let st' : St :=
+          if cl.pc == .send && cl.form == .drainWait && !(st.closed.getD i false) then
+            -- first poll of `drain_and_wait` up to `drain.status`: `close_message_admission` only
+            { st with closed := st.closed.set i true }
+          else
+            let r1 := callStep kid cl
+            -- the same poll goes on: `notified()` is created (join handle: polled)
+            let r2 := if cl.pc == .send && r1.2.pc == .waiting then callStep r1.1 r1.2 else r1
+            { st with g := r2.1.g, ports := r2.1.ports, callers := st.callers.set i r2.2 }
+        let cl' := (st'.callers[i]?).getD cl
+        let model := (if pre == point then "" else s!"model-at={pre} ") ++
+          s!"{sf st'} at={callerAt st' i}{retSuffix cl' (taskPanicked st')}"
+        let early := st.c.killedEarly || (cl.form == .killWait && cl.pc == .send && st.c.lastKp && kv iw "kp" == some "0" && !st.c.sawPost)
+        let (c, orc) := track { st.c with killedEarly := early } iw
+        -- the run-time oracle of every wait form: `Ok` ⇒ the snapshot is that of a fully stopped actor;
+        -- a join handle: completed (with `Ok` or `Err(JoinError)`) ⇒ fully stopped
+        let completed := saysOk iw || (cl.form == .join && iw.contains "ret=err")
+        let orc := orc ++ (if completed && !formOk (.ok (returnOk c.cause iw c.killedEarly)) then ["premature-return"] else [])
+        let c := { c with raced := c.raced || !st.g.exiter.finished }
+        ({ st' with c := c }, { model := model, oracle := orc })
+  | ["timeout", w] =>
+    match w.toNat? with
+    | none => (st, { model := "bad-op" })
+    | some i =>
+      match st.callers[i]? with
+      | none => (st, { model := "bad-op" })
+      | some cl =>
+        let r := timeoutStep { g := st.g, ports := st.ports } cl
+        let st' := { st with g := r.1.g, ports := r.1.ports, callers := st.callers.set i r.2 }
+        let model := s!"{sf st'} at={callerAt st' i}{retSuffix r.2}"
+        let before := st.c.lastFields
+        let (c, orc) := track st.c iw
+        let orc := orc ++ (if fieldsOf iw == before then [] else ["timeout-effect"]) ++
+          (if saysOk iw && !formOk (.ok (returnOk c.cause iw c.killedEarly)) then ["premature-return"] else [])
+        ({ st' with c := { c with raced := true } }, { model := model, oracle := orc })
   | ["abandon", w] =>
     match w.toNat? with
     | none => (st, { model := "bad-op" })
     | some i =>
       let g' := _root_.ExitRace.step st.g (.abandon i)
-      let model := s!"{showFields g' (st.c.cause == "stoppanic")} at={waiterAt g' i}"
+      let st' := { st with g := g' }
+      let model := s!"{sf st'} at={callerAt st' i}"
       let before := st.c.lastFields
       let (c, orc) := track st.c iw
       let orc := orc ++ (if fieldsOf iw == before then [] else ["timeout-effect"])
-      ({ st with g := g', c := { c with raced := true } }, { model := model, oracle := orc })
+      ({ st' with c := { c with raced := true } }, { model := model, oracle := orc })
   | "end" :: _ =>
     let g := st.g
-    let ws := g.waiters.map (fun w => match w.pc with
-      | .returned _ => "r" | .abandoned => "a" | _ => "p")
-    let model := s!"{showFields g (st.c.cause == "stoppanic")} waiters={if ws.isEmpty then "-" else ",".intercalate ws}"
+    let ws := st.callers.zipIdx.map (fun (cl, i) => match cl.pc with
+      | .done (.ok _) => if cl.form == .join && taskPanicked st then "e" else "r"
+      | .done .sendErr => "e" | .done .timeout => "t"
+      | _ => if waiterAbandoned g i then "a" else "p")
+    let model := s!"{sf st} waiters={if ws.isEmpty then "-" else ",".intercalate ws}"
     let (c, orc) := track st.c iw
     let implWs := ((kv iw "waiters").getD "-").splitOn ","
     let orc := orc ++
@@ -165,18 +428,49 @@ def step1 (st : St) (op impl : String) : St × StepOut :=
       | [kind, res, st, name, pid, pg, mon, kids, link, post] =>
         (if res == "ok" && !(st == "6" && name == "0" && pid == "0" && pg == "0" && mon == "0" && kids == "0"
             && link == "0" && (!graceful || post == "1")) then ["premature-return"] else []) ++
-        (if res == "timeout" && kind != "wait_timeout" then ["spurious-timeout"] else [])
+        (if res == "timeout" && !kind.endsWith "_timeout" then ["spurious-timeout"] else [])
       | [_, "hung", _] => ["lost-wakeup"]
       | _ => ["unparsable"]
     let orc := (ws.map bad).foldl (· ++ ·) [] ++
       (if terminal.length == 1 then [] else ["terminal-event-count"]) ++
       (if kv iw "st" == some "6" then [] else ["not-stopped-at-end"])
     (st, { model := impl, oracle := orc.eraseDups, nontrivial := true })
+  | "xtimeout" :: _ :: opts =>
+    -- free-running, real clock: `kind=<wait|stop_and_wait|drain_and_wait> d=<µs>` |
+    -- `res=<ok|timeout|err> el=<µs> st=<u8> ev=<k> fin=<u8> term=<k>`; the target cannot finish before the
+    -- harness lets it, so the call must report the timeout, no earlier than `d` (and within a generous real-time
+    -- bound); a timed-out `wait` has no effect on the actor (still Running = 2, no terminal event); afterwards
+    -- the actor stops normally with exactly one terminal event
+    let kind := (opts.findSome? fun w => if w.startsWith "kind=" then some (w.drop 5).toString else none).getD ""
+    let d := (opts.findSome? fun w => if w.startsWith "d=" then (w.drop 2).toString.toNat? else none)
+    let el := (kv iw "el").bind (·.toNat?)
+    let orc : List String := match d, el with
+      | some d, some el =>
+        (if kv iw "res" == some "timeout" then [] else ["timeout-missed"]) ++
+        (if d ≤ el then [] else ["timeout-early"]) ++
+        (if el ≤ d + 3000000 then [] else ["timeout-late"]) ++
+        (if kind == "wait" && !(kv iw "st" == some "2" && kv iw "ev" == some "0") then ["timeout-effect"] else []) ++
+        (if kv iw "term" == some "1" then [] else ["terminal-event-count"]) ++
+        (if kv iw "fin" == some "6" then [] else ["not-stopped-at-end"])
+      | _, _ => ["unparsable"]
+    (st, { model := impl, oracle := orc, nontrivial := true })
+  | "xchildren" :: _ =>
+    -- free-running: `ret=<0|1> kids=<st,…> parent=<st>` after `stop_children_and_wait` / `drain_children_and_wait`
+    -- on running children: returned (no lost wake-up), every child Stopped (= 6) at that moment, parent Running (= 2)
+    let kids := ((kv iw "kids").getD "").splitOn ","
+    let orc : List String :=
+      (if kv iw "ret" == some "1" then [] else ["lost-wakeup"]) ++
+      (if kv iw "ret" == some "1" && !(kids.all (· == "6")) then ["premature-return"] else []) ++
+      (if kv iw "parent" == some "2" then [] else ["children-wait-effect"])
+    (st, { model := impl, oracle := orc, nontrivial := true })
   | _ => (st, { model := "bad-op" })
 
+def isWOp (op : String) : Bool :=
+  ["wcase ", "wrap", "release ", "kill ", "advance", "wend"].any (op.startsWith ·)
+
 def step (st : St) (op impl : String) : St × StepOut :=
-  let (st', out) := step1 st op impl
-  if st.diverged && !(op.startsWith "case ") && !(op.startsWith "xstress ") then (st', { out with model := impl })
+  let (st', out) := if isWOp op then wstep st op impl else step1 st op impl
+  if st.diverged && !(op.startsWith "case ") && !(op.startsWith "wcase ") && !(op.startsWith "xstress ") && !(op.startsWith "xtimeout ") && !(op.startsWith "xchildren ") then (st', { out with model := impl })
   else if out.model != impl then ({ st' with diverged := true }, out)
   else (st', out)
 
